@@ -403,6 +403,34 @@ def write_replay(spec, kind, payload):
 
 # ----------------------------------------------------------------------------- main flow
 
+def anchor_files(pid):
+    for l in open(os.path.join(VERIF, "properties.jsonl")):
+        if l.strip():
+            o = json.loads(l)
+            if o["id"] == pid:
+                return o["anchors"]["files"]
+    return []
+
+
+def anchors_hash(pid):
+    h = hashlib.sha256()
+    for f in sorted(anchor_files(pid)):
+        p = os.path.join(REPO, f)
+        h.update(f.encode())
+        h.update(open(p, "rb").read() if os.path.exists(p) else b"<missing>")
+    return h.hexdigest()[:16]
+
+
+def anchors_changed(pid):
+    """True when the files the property is anchored in differ from the committed baseline (props/anchors.lock.json):
+    not an alarm, only a reason to explore more cases in this run."""
+    p = os.path.join(VERIF, "props", "anchors.lock.json")
+    if not os.path.exists(p):
+        return False
+    base = json.load(open(p)).get(pid)
+    return base is not None and base != anchors_hash(pid)
+
+
 def load_spec(pid):
     p = os.path.join(VERIF, "props", pid + ".json")
     spec = json.load(open(p))
@@ -428,6 +456,11 @@ def check(pid, tier="quick", replay=None):
     workdir = os.path.join(BUILD, pid)
     os.makedirs(workdir, exist_ok=True)
     n = spec.get("thorough_n" if tier == "thorough" else "quick_n", 500)
+    escalated = False
+    if tier == "quick" and not replay and anchors_changed(pid):
+        # the anchored source changed since the baseline: explore more (bounded), recorded in evidence
+        n = min(spec.get("thorough_n", n), spec.get("escalate_n", 4 * n))
+        escalated = True
     violations, known, notes = [], [], []
     findings = load_findings().get(pid, {})
 
@@ -571,6 +604,7 @@ def check(pid, tier="quick", replay=None):
             corr_failures=len(res["corr"]) if res is not None else 0,
             oracle_failures=len(res["oracle"]) if res is not None else 0,
             known_findings_observed=[k for k, _ in known],
+            anchors_changed_escalated=escalated,
             samples=samples or [{"note": "no cases were produced"}],
             driver_build_cmd=bcmd,
             timings=dict(coq_build_s=round(cb["wall"], 2), go_build_s=round(bdt, 2), driver_s=round(res["wall"], 2) if res else None),
